@@ -54,7 +54,9 @@ def initHashes : List (String × String) :=
       `         case n.sym.kind == varSym && n.sym.global: deps = append(deps, n.sym.node) }`     (ab398ff, F15-6: no `&& n.sym.node != nod`)
       `if fn != nil && !seen[fn] { seen[fn] = true; fn.Walk(visit, nil) }`
     interp/gta.go gta `case defineXStmt:` — while the callee's type is incomplete
-      `revisit = append(revisit, n); return false` (e843e3f, F15-7), then `compDefineX`, then for the
+      `revisit = append(revisit, n); return false` (e843e3f, F15-7; since fb8122a the awaited operand is
+      `src.child[0]` for a call, an index expression or a receive and `src.child[1]` for a type assertion:
+      `operandRetry`, F15-9), then `compDefineX`, then for the
       declared names `sym.global, sym.node = true, n` (2be263c, F15-1/2);
     interp/ast.go ast `case token.VAR:` `if anc.node != nil && anc.node.kind == fileStmt { a.Specs = splitVarSpecs(a.Specs) }` (14ebac5, F15-3);
     interp/cfg.go genGlobalVarDecl `for _, n := range nodes { deps[n] = getVarDependencies(n, sc) }`: every
@@ -66,6 +68,7 @@ def depFacts : DepFacts :=
     skipSelf := false,
     multiGlobal := true,
     multiRetry := true,
+    operandRetry := true,
     splitPaired := true,
     collectSkip := .none }
 
@@ -78,6 +81,7 @@ def depFactsBefore : DepFacts :=
     skipSelf := true,
     multiGlobal := false,
     multiRetry := false,
+    operandRetry := false,
     splitPaired := false,
     collectSkip := .none }
 
@@ -85,10 +89,10 @@ def depFactsBefore : DepFacts :=
     and of `compDefineX` (as of e4c80e1: for `var v, ok = m[k]` / `<-c` it asks `nodeType` for the type
     of the operand at once — `VarSpec.operandLater`, F15-9) -/
 def depHashes : List (String × String) :=
-  [("gta: case defineXStmt", "51d7c97a02551840"),
+  [("gta: case defineXStmt", "996e7e1b8564b60e"),
    ("gtaRetry", "737ad8e893ad854e"),
    ("ast: case token.VAR", "d95ba4f780b05d24"),
    ("splitVarSpecs", "9f5cbf17b563afa2"),
-   ("compDefineX", "2e6d04f3268d22ec")]
+   ("compDefineX", "855319677bb0156c")]
 
 end YaegiVerif.Expected.C15
